@@ -58,7 +58,8 @@ Definition c_p (st : state) : nat :=
 
 Definition clean (st : state) (j : tagjob) : bool :=
   match tget (tj_name j) (tags st) with
-  | Some ot => defn_eqb (t_def ot) (tj_def j) && is0 (u1_of (tags st) (tj_snap j) (tj_def j) (all st))
+  | Some ot => defn_eqb (t_def ot) (tj_def j) && is0 (u1_of (tags st) (tj_snap j) (tj_def j) (all st)) &&
+               negb (is0 (t_u ot)) && forallb (fun x => is0 (tu x (tags st))) (d_refs (tj_def j))
   | None => false
   end.
 Definition c_z (st : state) : nat := match jtag st with Some j => if clean st j then 0 else 1 | None => 0 end%nat.
@@ -142,8 +143,6 @@ Definition tagjob_ok (st : state) : Prop :=
   forall j, jtag st = Some j ->
     bounded (next st) (tj_m j) /\ bounded (next st) (tj_u j) /\
     (forall x, bounded (next st) (lookupN x (tj_snap j))) /\
-    (clean st j = true -> exists ot i, tget (tj_name j) (tags st) = Some ot /\ mem i (t_u ot) = true) /\
-    (dirty_of st = false -> forall x, In x (d_refs (tj_def j)) -> tu x (tags st) = 0) /\
     (forall res, tj_res j = Some res -> bounded (next st) res).
 
 Definition convs_ok (st : state) : Prop :=
@@ -322,12 +321,13 @@ Qed.
 Lemma start_tagging_started p st n t :
   start_tagging p st = set_jtag (set_masks st 0 0 0)
      (Some (mkTj n (t_def t) (t_m t) (t_u t) (t_conv t) (map (fun r => (r, tm r (tags st))) (d_refs (t_def t))) (length (hist st)) None)) ->
-  tget n (tags st) = Some t ->
+  tget n (tags st) = Some t -> eligible (tags st) n = true ->
   c_z (start_tagging p st) = 0%nat /\ c_d (start_tagging p st) = 0%nat /\ c_tp (start_tagging p st) = 2%nat.
 Proof.
-  intros -> T. split; [|split; reflexivity].
+  intros -> T EL. split; [|split; reflexivity].
   unfold c_z, clean. simpl. rewrite T, defn_eqb_refl. simpl.
-  rewrite (u1_fresh (tags st) (t_def t)). reflexivity.
+  rewrite (u1_fresh (tags st) (t_def t)). unfold eligible in EL. rewrite T in EL.
+  apply andb_true_iff in EL. destruct EL as [E1 E2]. rewrite E1, E2. reflexivity.
 Qed.
 
 (* ---------------------------------------------------------------- decrease: the easy steps *)
@@ -809,8 +809,8 @@ Proof. unfold c_z. intros ->. reflexivity. Qed.
 
 Lemma after_tagging_z p Y : jtag Y = None -> c_z (start_tagging p Y) = 0%nat.
 Proof.
-  intros J. destruct (start_tagging_cases p Y J) as [(_ & ->)|(n & t & T & _ & E)]; [apply c_z_nojob; exact J|].
-  exact (proj1 (start_tagging_started p Y n t E T)).
+  intros J. destruct (start_tagging_cases p Y J) as [(_ & ->)|(n & t & T & EL & E)]; [apply c_z_nojob; exact J|].
+  exact (proj1 (start_tagging_started p Y n t E T EL)).
 Qed.
 
 Lemma dec_ctag st p n d m0 u0 cv snap h res : Tinv st -> jtag st = Some (mkTj n d m0 u0 cv snap h (Some res)) ->
@@ -827,13 +827,17 @@ Proof.
   assert (c_e3 pre = c_e3 st) as -> by (apply c_e3_frame; try assumption; intros i; unfold doomed; rewrite F7, F8; reflexivity).
   assert (c_p pre = c_p st) as -> by (unfold c_p; rewrite F7; reflexivity).
   do 3 apply lex_tl.
-  destruct (TJ _ J) as (_ & _ & _ & TU & TR & _). simpl in TU, TR.
   unfold c_z at 1. rewrite J.
   destruct (clean st (mkTj n d m0 u0 cv snap h (Some res))) eqn:CLN; [|apply lex_hd; [lia|reflexivity]].
   apply lex_tl.
   (* a clean job publishes with Uncertain = 0 *)
-  destruct (TU eq_refl) as (ot & iu & Tn & Hu). unfold clean in CLN. simpl in CLN. rewrite Tn in CLN.
+  unfold clean in CLN. simpl in CLN. destruct (tget n (tags st)) as [ot|] eqn:Tn; [|discriminate].
+  apply andb_true_iff in CLN. destruct CLN as (CLN & RF). apply andb_true_iff in CLN. destruct CLN as (CLN & UN).
   apply andb_true_iff in CLN. destruct CLN as (DE & U1). apply defn_eqb_eq in DE. apply is0_true in U1. subst d.
+  apply negb_true_iff in UN. apply is0_false in UN. destruct (ne0_mem_exists _ UN) as (iu & Hu).
+  assert (forall x, In x (d_refs (t_def ot)) -> tu x (tags st) = 0) as TR0.
+  { intros x Hx. rewrite forallb_forall in RF. apply is0_true. apply RF. exact Hx. }
+  assert (dirty_of st = false -> forall x, In x (d_refs (t_def ot)) -> tu x (tags st) = 0) as TR by (intros _; exact TR0).
   destruct (tget_In _ _ _ Tn) as (In_n & Ln).
   set (tp := mkTag (t_def ot) res 0 (t_conv ot)).
   assert (Forall2 same1 (tags st) (tset n tp (tags st))) as SM1.
@@ -851,7 +855,7 @@ Proof.
   destruct (dirty_of st) eqn:DI.
   - (* imports / converter results arrived during the job *)
     assert (c_d st = 1%nat) as -> by (unfold c_d; rewrite DI; reflexivity).
-    destruct (start_tagging_cases p pre F1) as [(FE & EQ)|(n1 & t1 & T1' & _ & EQ)].
+    destruct (start_tagging_cases p pre F1) as [(FE & EQ)|(n1 & t1 & T1' & EL1 & EQ)].
     + rewrite E5, E6, EQ.
       assert (c_d pre = 1%nat) as -> by (unfold c_d, dirty_of in *; rewrite F9, F10, F11, DI; reflexivity).
       apply lex_tl. apply lex_hd; [|reflexivity].
@@ -862,13 +866,13 @@ Proof.
         - eapply ranked_same; [|exact Ra]. eapply Forall2_trans_same; [exact SM1|eapply grow_same; apply grow_invalidate_tags].
         - apply deadok_dead_clean. unfold invalidate_tags. apply deadok_inherit, deadok_map_inval, deadok_tset; [reflexivity|exact Dk]. }
       unfold c_t at 1. rewrite (all_certain_no_uncertain _ AC). simpl. lia.
-    + rewrite E5. rewrite (proj1 (proj2 (start_tagging_started p pre n1 t1 EQ T1'))). apply lex_hd; [lia|reflexivity].
+    + rewrite E5. rewrite (proj1 (proj2 (start_tagging_started p pre n1 t1 EQ T1' EL1))). apply lex_hd; [lia|reflexivity].
   - (* nothing arrived: the tag becomes certain and nothing else changes *)
     assert (c_d st = 0%nat) as -> by (unfold c_d; rewrite DI; reflexivity).
     assert (c_d X = 0%nat) as ->.
-    { rewrite E5. destruct (start_tagging_cases p pre F1) as [(_ & ->)|(n1 & t1 & T1' & _ & EQ)].
+    { rewrite E5. destruct (start_tagging_cases p pre F1) as [(_ & ->)|(n1 & t1 & T1' & EL1 & EQ)].
       - unfold c_d, dirty_of in *. rewrite F9, F10, F11, DI. reflexivity.
-      - exact (proj1 (proj2 (start_tagging_started p pre n1 t1 EQ T1'))). }
+      - exact (proj1 (proj2 (start_tagging_started p pre n1 t1 EQ T1' EL1))). }
     apply lex_tl. apply lex_hd; [|reflexivity]. rewrite E6.
     assert (inherit (all st) (tset n tp (tags st)) = tset n tp (tags st)) as IH.
     { unfold all. apply inherit_closed_id.
@@ -1032,11 +1036,8 @@ Proof.
   intros j Hj. simpl in Hj. inversion Hj; subst; clear Hj. simpl.
   destruct (tget_In _ _ _ Tn) as (In_n & Ln). destruct (A4 n t In_n) as (BU & BM).
   destruct (eligible_spec _ _ EL) as (t' & Tn' & RZ). rewrite Tn in Tn'. inversion Tn'; subst t'.
-  split; [exact BM|split; [exact BU|split; [|split; [|split; [|discriminate]]]]].
-  - intros x. apply lookupN_bounded. intros pr I. apply in_map_iff in I. destruct I as (r & <- & _). simpl. apply tm_bounded. exact A4.
-  - intros _. exists t. unfold eligible in EL. rewrite Tn in EL. apply andb_true_iff in EL. destruct EL as [EU _].
-    apply negb_true_iff in EU. apply is0_false in EU. destruct (ne0_mem_exists _ EU) as (i & Hi). exists i. split; [exact Tn|exact Hi].
-  - intros _ x Hx. apply RZ. exact Hx.
+  split; [exact BM|split; [exact BU|split; [|discriminate]]].
+  intros x. apply lookupN_bounded. intros pr I. apply in_map_iff in I. destruct I as (r & <- & _). simpl. apply tm_bounded. exact A4.
 Qed.
 
 Lemma tcore_starts p st : Tcore st -> Tcore (start_merge (start_converter (start_tagging p st))).
@@ -1058,8 +1059,8 @@ Proof.
   split; [exact A1|split; [exact A2|split; [exact A3|split; [exact A4|split; [exact A5|split; [exact A6|split; [exact A7|
     split; [exact A8|split; [|split; [exact A10|split; [exact A11|exact A12]]]]]]]]]]].
   intros j' Hj. simpl in Hj. inversion Hj; subst; clear Hj. simpl.
-  destruct (A9 _ J) as (B1 & B2 & B3 & B4 & B5 & _). simpl in *.
-  split; [exact B1|split; [exact B2|split; [exact B3|split; [exact B4|split; [exact B5|]]]]].
+  destruct (A9 _ J) as (B1 & B2 & B3 & _). simpl in *.
+  split; [exact B1|split; [exact B2|split; [exact B3|]]].
   intros res E. inversion E; subst. intros i Hi. rewrite mem_union, mem_diff, mem_inter in Hi.
   apply orb_true_iff in Hi. destruct Hi as [Hi|Hi]; apply andb_true_iff in Hi; destruct Hi as [Hi _]; auto.
 Qed.
@@ -1131,15 +1132,6 @@ Proof.
   apply G.
 Qed.
 
-Lemma clean_grow st st' j : Forall2 (grow1 (next st)) (tags st) (tags st') -> next st' = next st -> clean st' j = clean st j.
-Proof.
-  intros G N. unfold clean, all. rewrite N.
-  rewrite (u1_of_tm (tags st) (tags st')) by (intros x; apply (grow_tm (next st)); exact G).
-  destruct (tget (tj_name j) (tags st)) as [t|] eqn:T.
-  - destruct (grow_tget _ _ _ _ _ G T) as (t' & T' & ED & _). rewrite T', ED. reflexivity.
-  - rewrite (grow_tget_none _ _ _ _ G T). reflexivity.
-Qed.
-
 Lemma union_eq_0 a b : union a b = 0 -> a = 0 /\ b = 0.
 Proof. unfold union. apply N.lor_eq_0_iff. Qed.
 
@@ -1159,23 +1151,17 @@ Lemma tcore_grow st st' :
   Tcore st -> next st' = next st ->
   Forall2 (grow1 (next st)) (tags st) (tags st') -> deadok (tags st') -> u_bounded (next st) (tags st') -> closed (next st) (tags st') ->
   bounded (next st) (m_upd st') -> bounded (next st) (m_rst st') -> bounded (next st) (m_add st') ->
-  (dirty_of st' = false -> tags st' = tags st /\ dirty_of st = false) ->
   jtag st' = jtag st -> convs st' = convs st -> (forall j, jconv st' = Some j -> jconv st = Some j) ->
   idx st' = idx st -> jmerge st' = jmerge st -> jimp st' = jimp st ->
   Tcore st'.
 Proof.
-  intros (A1 & A2 & A3 & A4 & A5 & A6 & A7 & A8 & A9 & A10 & A11 & A12) N G D UB CL BU BR BA DI JT CV JC IX JM JI.
+  intros (A1 & A2 & A3 & A4 & A5 & A6 & A7 & A8 & A9 & A10 & A11 & A12) N G D UB CL BU BR BA JT CV JC IX JM JI.
   unfold Tcore. rewrite N.
   split; [eapply sorted_same; [eapply grow_same; exact G|exact A1]|
   split; [eapply ranked_same; [eapply grow_same; exact G|exact A2]|
   split; [exact D|split; [eapply tb_from; [apply N.le_refl|exact A4|exact G|exact UB]|
   split; [exact BU|split; [exact BR|split; [exact BA|split; [exact CL|split; [|split; [|split]]]]]]]]]].
-  - intros j Hj. rewrite JT in Hj. destruct (A9 j Hj) as (B1 & B2 & B3 & B4 & B5 & B6). rewrite N.
-    split; [exact B1|split; [exact B2|split; [exact B3|split; [|split; [|exact B6]]]]].
-    + intros C. rewrite (clean_grow st st' j G N) in C. destruct (B4 C) as (ot & i & T & Hi).
-      destruct (grow_tget _ _ _ _ _ G T) as (ot' & T' & _ & _ & GU). exists ot', i. split; [exact T'|].
-      apply GU; [|exact Hi]. destruct (tget_In _ _ _ T) as (I & _). exact (proj1 (A4 _ _ I) i Hi).
-    + intros DF x Hx. destruct (DI DF) as (-> & DF0). apply B5; assumption.
+  - intros j Hj. rewrite JT in Hj. rewrite N. exact (A9 j Hj).
   - destruct A10 as (ND & NJ). unfold convs_ok. rewrite CV. split; [exact ND|]. intros j Hj. apply NJ. apply JC. exact Hj.
   - unfold mergejob_ok. rewrite JM, IX. exact A11.
   - unfold impjob_t, resp_t. rewrite JI, N. exact A12.
@@ -1198,12 +1184,6 @@ Proof.
   - unfold cconv_pre. simpl. apply u_bounded_inherit, ub_data_tags; [apply tags_u_bounded; exact A4|exact BS].
   - unfold cconv_pre. simpl. apply closed_inherit.
   - unfold cconv_pre. simpl. apply union_bounded; assumption.
-  - intros DF. destruct (dirty_false _ DF) as (U0 & R0 & M0). unfold cconv_pre in U0, R0, M0. simpl in U0, R0, M0.
-    apply union_eq_0 in U0. destruct U0 as (U0 & S0).
-    split.
-    + change (tags (cconv_pre st sets)) with (inherit (all st) (data_tags_uncertain s (tags st))).
-      replace s with 0 by (symmetry; exact S0). rewrite data_tags_zero. apply inherit_closed_id; [exact A8|apply tags_u_bounded; exact A4].
-    + unfold dirty_of. rewrite U0, R0, M0. reflexivity.
   - intros j Hj. discriminate.
 Qed.
 
@@ -1250,7 +1230,7 @@ Proof.
   destruct (tget n (tags st)) as [ot|] eqn:Tn; [|apply (tcore_nojob st); auto].
   destruct (defn_eqb (t_def ot) d) eqn:DE; [|apply (tcore_nojob st); auto].
   apply defn_eqb_eq in DE. subst d.
-  destruct (A9 _ J) as (_ & _ & B3 & _ & _ & B6). simpl in B3, B6. specialize (B6 res eq_refl).
+  destruct (A9 _ J) as (_ & _ & B3 & B6). simpl in B3, B6. specialize (B6 res eq_refl).
   destruct (tget_In _ _ _ Tn) as (In_n & Ln).
   set (tp := mkTag (t_def ot) res (u1_of (tags st) snap (t_def ot) (all st)) (t_conv ot)).
   set (ts1 := tset n tp (tags st)).
@@ -1318,25 +1298,9 @@ Proof.
   split; [apply union_bounded; [eapply bounded_mono; [exact R1|exact A6]|exact BR]|
   split; [apply union_bounded; [eapply bounded_mono; [exact R1|exact A7]|exact BA]|
   split; [unfold invalidate_tags; apply closed_inherit|split; [|split; [|split; [|]]]]]]]]]]].
-  - intros j Hj. simpl in Hj. destruct (A9 j Hj) as (B1 & B2 & B3 & B4 & B5 & B6). simpl.
+  - intros j Hj. simpl in Hj. destruct (A9 j Hj) as (B1 & B2 & B3 & B6). simpl.
     split; [eapply bounded_mono; [exact R1|exact B1]|split; [eapply bounded_mono; [exact R1|exact B2]|
-    split; [intros x; eapply bounded_mono; [exact R1|apply B3]|split; [|split; [|intros res E; eapply bounded_mono; [exact R1|exact (B6 res E)]]]]]].
-    + intros C. unfold clean in C. simpl in C.
-      assert (clean st j = true) as C0.
-      { unfold clean. destruct (tget (tj_name j) (tags st)) as [ot|] eqn:T.
-        - destruct (grow_tget _ _ _ _ _ G T) as (ot' & T' & ED & _). rewrite T', ED in C.
-          apply andb_true_iff in C. destruct C as (C1 & C2). rewrite C1. simpl.
-          rewrite (u1_of_tm (tags st)) in C2 by (intros x; apply (grow_tm nx'); exact G).
-          unfold u1_of in *. unfold all in *. simpl in C2. destruct (existsb _ (d_subt (tj_def j))); [|exact C2].
-          fold nx' in C2. apply ones_is0 in C2. assert (next st = 0) as -> by lia. reflexivity.
-        - rewrite (grow_tget_none _ _ _ _ G T) in C. discriminate. }
-      destruct (B4 C0) as (ot & i & T & Hi). destruct (grow_tget _ _ _ _ _ G T) as (ot' & T' & _ & _ & GU).
-      exists ot', i. split; [exact T'|]. apply GU; [|exact Hi].
-      destruct (tget_In _ _ _ T) as (I & _). pose proof (proj1 (A4 _ _ I) i Hi). lia.
-    + intros DF. exfalso. destruct (dirty_false _ DF) as (U0 & R0 & M0). simpl in U0, R0, M0.
-      apply union_eq_0 in U0. apply union_eq_0 in R0. apply union_eq_0 in M0.
-      destruct (R6 NE) as (i & Hi). rewrite !mem_union in Hi. destruct U0 as (_ & E1). destruct R0 as (_ & E2). destruct M0 as (_ & E3).
-      rewrite E1, E2, E3, !mem_0 in Hi. discriminate.
+    split; [intros x; eapply bounded_mono; [exact R1|apply B3]|intros res E; eapply bounded_mono; [exact R1|exact (B6 res E)]]]].
   - exact A10.
   - intros j Hj. simpl in Hj. destruct (A11 j Hj) as (L1 & L2 & L3). simpl. rewrite app_length. split; [exact L1|split; [lia|exact L3]].
   - intros n0 r0 E. simpl in E. discriminate.
